@@ -54,9 +54,9 @@ PROPS.update({
     "C03": _p([r"^c03_"], ["C03:"], bounds=STD_BOUNDS + " Answer script: Continue^k Break^inf for symbolic k in 0..10, then the keep-going run of the same payload. " + CAT),
     "C04": _p([r"^c04_"], ["C04:"], bounds=STD_BOUNDS + " Answer script free. Locations decoded up to depth 3 and resolved in the arena inside the error type. " + CAT),
     "C06": _p([r"^c06_", r"^c02_[qt]_(vec|arr|tup|opt|box)"], ["C06:"]),
-    "C07": _p([r"^c02_[qt]_(s1|s2|e1|e2|n1|g\d+)_"], ["C07:"], gen=True, bounds=STD_BOUNDS + " " + CAT),
+    "C07": _p([r"^c02_[qt]_(s1|s2|s3|e0|e1|e2|n1|g\d+)_"], ["C07:"], gen=True, bounds=STD_BOUNDS + " " + CAT),
     "C08": _p([r"^c02_[qt]_(s1|s2|s3|s4|s6|e1|e2|g\d+)_"], ["C08:"], gen=True, bounds=STD_BOUNDS + " " + CAT),
-    "C09": _p([r"^c02_[qt]_(s1|s2|s3|e1|n1|g\d+)_"], ["C09:"], gen=True, bounds=STD_BOUNDS + " " + CAT),
+    "C09": _p([r"^c02_[qt]_(s1|s2|s3|e0|e1|e2|n1|g\d+)_"], ["C09:"], gen=True, bounds=STD_BOUNDS + " " + CAT),
     "C10": _p([r"^c02_[qt]_(e0|e1|e2|e3)_"], ["C10:"], bounds=STD_BOUNDS + " " + CAT),
     "C11": _p([r"^c02_[qt]_(s4|s5|s6|c1|c2)_"], ["C11:"], bounds=STD_BOUNDS + " User-function outcomes (try_from / validate fail or succeed) symbolic. " + CAT),
     "C12": _p([r"^c12_", r"^c01_", r"^c05_q_(char|string)"], [], panics=True, bounds=STD_BOUNDS + " Every reachable panic!, unwrap, index, arithmetic-overflow and pointer check of the compiled code is a proof obligation. " + CAT),
